@@ -82,6 +82,13 @@ func installFineHooks(sc *Sched, on map[string]bool, held bool, count func(strin
 		if t == nil || t.sched != sc || (t.held > 0 && !held) || (t.Gen != nil && t.Gen.dead.Load()) {
 			return
 		}
+		if !engineContext() {
+			// the simulator itself called this engine function (an oracle recomputing a hash inside
+			// the store's commit, the client wrapper classifying an error): not a scheduling point of
+			// the system under test -- parking here would tear the simulated store's atomic commit
+			// apart, or let a zombie of a crashed process write to the event log
+			return
+		}
 		if t.held > 0 {
 			count("fine.parks-holding-a-mutex")
 		}
@@ -163,5 +170,33 @@ func genFineSites(t *rapid.T, filter string) []string {
 			out = append(out, rapid.SampledFrom(cand).Draw(t, "fineSite"))
 		}
 		return out
+	}
+}
+
+// engineEntryPoints are the simulator functions that call into the engine on behalf of the
+// simulated system (a client's request, start-up, shutdown, the pass-through lock wrapper).
+var engineEntryPoints = []string{".(*Sim).execOp", ".(*Sim).bootLedger", ".(*Sim).spawnShutdown", ".(*lockerWrap).Lock", ".(*lockerSim).doRequest", ".(*lockerSim).probe"}
+
+// engineContext: walking up from a statement-level point, is the nearest simulator frame one of
+// those entry points? (If the engine was entered from any other simulator code -- store, oracles,
+// publisher, bookkeeping -- or from no simulator code at all, the answer decides accordingly:
+// no simulator frame means a goroutine the engine started itself, which is engine context.)
+func engineContext() bool {
+	var pcs [48]uintptr
+	n := runtime.Callers(3, pcs[:])
+	frames := runtime.CallersFrames(pcs[:n])
+	for {
+		f, more := frames.Next()
+		if strings.Contains(f.Function, "/verifsim.") {
+			for _, e := range engineEntryPoints {
+				if strings.Contains(f.Function, e) {
+					return true
+				}
+			}
+			return false
+		}
+		if !more {
+			return true
+		}
 	}
 }
